@@ -176,3 +176,68 @@ def skolem_index(c, shape, base='e'):
         c.assume(ops_cmp('<', i, d))
         idx.append(i)
     return tuple(idx)
+
+
+# ---------------------------------------------------------------------------------------------
+# reader objects
+
+def axis_array(c, name, n, width='int32'):
+    """a regular axis: start + k*step, step != 0  (what _parse_coordinates builds from a conforming header)"""
+    start = c.sym_int(name + '0', name=name + '[0]')
+    step = c.sym_int(name + '_step', name=name + '_step')
+    c.assume(ops_cmp('!=', step, 0))
+    arr = SArray((n,), lambda idx: ops_binop('+', start, ops_binop('*', idx[0], step)), width)
+    arr.prog = (start, step)
+    return arr
+
+
+def mk_reader(c, prog, g, cls_name='SgzReader', preload=False, local=True, structured=True, loader=None):
+    """SgzReader (or subclass) in the state __init__ leaves it in for a conforming file of geometry g"""
+    cls = prog.klass(cls_name)
+    f = new_input_file(c, local=local, prog=prog)
+    ld = loader or mk_loader(c, prog, g, preload=preload, local=local, file=f)
+    chunk_bytes = ops_binop('*', S.BLK, g.G[2])
+    if g.two_d:
+        nI, nX, nZ = 0, 0, g.nZ
+        tracecount = g.nT
+    else:
+        nI, nX, nZ = g.nI, g.nX, g.nZ
+        if structured:
+            tracecount = ops_binop('*', nI, nX)
+        else:
+            tracecount = c.sym_int('tracecount', lo=1, name='tracecount')
+            c.assume(ops_cmp('<', tracecount, ops_binop('*', nI, nX)))
+    fields = dict(_filename='<sgz>', file=f, local=local, n_header_blocks=2, n_samples=nZ, n_xlines=nX, n_ilines=nI,
+                  rate=g.rate, blockshape=g.b, is_2d=g.two_d, is_3d=not g.two_d,
+                  compressed_data_diskblocks=g.diskblocks, data_start_bytes=g.data_start, tracecount=tracecount,
+                  shape_pad=g.P, unit_bytes=g.ub, block_bytes=S.BLK, chunk_bytes=chunk_bytes,
+                  variant_headers={}, include_padding=None, range_error='<fmt>', loader=ld,
+                  structured=(structured and not g.two_d), mask=None)
+    alen = ops_binop('*', 4, g.nT if g.two_d else ops_binop('*', nI, nX))
+    fields['header_entry_length_bytes'] = alen
+    fields['padded_header_entry_length_bytes'] = ops_binop('*', 512, S.ceil_div(alen, 512))
+    fields['zslices'] = axis_float(c, 'zslices', nZ)
+    if not g.two_d:
+        fields['ilines'] = axis_array(c, 'ilines', nI)
+        fields['xlines'] = axis_array(c, 'xlines', nX)
+    o = SObj(cls, fields)
+    o.geo = g
+    from pyvc.symex import BoundMethod
+    o.fields['_read_containing_chunk_cached'] = BoundMethod(o, cls.find_method('_read_containing_chunk'))
+    o.frozen = set(fields) - {'variant_headers', 'include_padding', 'mask'}
+    return o
+
+
+def axis_float(c, name, n):
+    """sample axis: z0 + k*dz as exact reals (S3a), dz > 0"""
+    z0 = c.sym_float(name + '0', name=name + '[0]')
+    dz = c.sym_float(name + '_step', name=name + '_step')
+    c.assume(ops_cmp('>', dz, 0))
+    arr = SArray((n,), lambda idx: ops_binop('+', z0, ops_binop('*', idx[0], dz)), 'float64')
+    arr.prog = (z0, dz)
+    return arr
+
+
+def V_real(g, i, x, z):
+    """sample of the decoded volume at real coordinates (same term as Vpad: the real extent is a sub-box)"""
+    return Vpad(g, i, x, z)
